@@ -48,7 +48,7 @@ func init() {
 		New:      func() any { return &C06Case{} },
 		Check:    func(c any) Result { return checkC06(c.(*C06Case)) },
 		Quick:    2500,
-		Thorough: 12000,
+		Thorough: 200000,
 	})
 }
 
